@@ -29,8 +29,11 @@ def declaration_cells(task):
         from sedpack.io.metadata import Attribute, DatasetStructure
         fmt = task["fmt"]
         k = 0
-        for decl in task["declarations"]:
-            for vkind in task["value_kinds"]:
+        for decl, vkind, order in [(d_, v_, o_) for d_ in task["declarations"] for v_ in task["value_kinds"]
+                                   for o_ in ("middle", "first")]:
+            if True:
+                if order == "first" and vkind == "good":
+                    continue
                 k += 1
                 root = tmp / f"d{k}"
                 shape = () if decl in ("bytes", "str") else (2,)
@@ -38,7 +41,7 @@ def declaration_cells(task):
                 if vkind == "missing-variable-attr":
                     attrs.append(Attribute(name="blob", dtype="bytes", shape=()))
                 cell = {"fmt": fmt, "decl": decl, "value": vkind, "declared": True, "accepted": None, "readable": None,
-                        "ids": None, "detail": ""}
+                        "ids": None, "detail": "", "order": order}
                 try:
                     st = DatasetStructure(saved_data_description=attrs, compression="", examples_per_shard=2,
                                           shard_file_type=fmt, hash_checksum_algorithms=("md5",))
@@ -73,12 +76,18 @@ def declaration_cells(task):
                         del d["blob"]
                     elif vkind == "number-for-bytes":
                         d["v"] = np.array([1, 2])
+                    elif vkind == "extra-attr":
+                        d["undeclared"] = np.array([7], np.int64)
                     return d
 
                 accepted_ids, results = [], []
                 try:
                     with ds.filler() as f:
-                        for i, maker in ((1, good), (2, odd), (3, good)):
+                        # "middle": the odd write is the second of its shard; "first": it is the first write that
+                        # reaches a shard - of the first shard and, after two good ones, of the second shard
+                        seq = ((1, good), (2, odd), (3, good)) if order == "middle" else \
+                            ((1, odd), (2, good), (3, good), (4, odd), (5, good))
+                        for i, maker in seq:
                             try:
                                 f.write_example(values=maker(i), split="train")
                                 accepted_ids.append(i)
@@ -111,7 +120,8 @@ def declaration_cells(task):
 
 
 DECLS = ["int8", "uint8", "int16", "int32", "int64", "uint64", "float16", "float32", "float64", "bytes", "str"]
-VKINDS = ["good", "fractional-for-int", "text-for-number", "wider-dtype", "missing-variable-attr", "number-for-bytes"]
+VKINDS = ["good", "fractional-for-int", "text-for-number", "wider-dtype", "missing-variable-attr", "number-for-bytes",
+          "extra-attr"]
 
 
 def declarations(ctx):
@@ -146,7 +156,8 @@ def declarations(ctx):
                 continue  # nothing was accepted: nothing has to be readable
             n += 1
             if c["readable"] is False or (c["ids"] is not None and c["detail"]):
-                bad_write = "good values" if vk == "good" or c["accepted"][1].startswith("rej") else vk
+                odd_at = 0 if c.get("order") == "first" else 1
+                bad_write = "good values" if vk == "good" or c["accepted"][odd_at].startswith("rej") else vk
                 dclass = {"i": "int", "u": "int", "f": "float", "S": "text"}[dk]
                 ctx.violation(f"C18|kind=accepted-unreadable|fmt={c['fmt']}|decl={c['decl']}|declclass={dclass}|value={bad_write}",
                               f"{c['fmt']} attribute declared {c['decl']}, writes {c['accepted']} ({vk}): "
